@@ -99,11 +99,13 @@ package jet
 //@   ensures [line-is-1-based] 1 <= result && result <= 1 + l.lastPos
 
 //@ func (*lexer).atTerminator
-//@   props C02
+//@   props C02 C04
 //@   requires LexInv(l)
 //@   modifies l.pos, l.width
 //@   nopanic
 //@   ensures LexInv(l) && l.pos == old(l.pos)
+//@   check [operators-and-punctuation-end-an-identifier] {C04} OpRune(lastret("(*lexer).peek", 0)) ==> result == true
+//@ pred OpRune(r rune) := r == -1 || r == 46 || r == 44 || r == 124 || r == 58 || r == 41 || r == 61 || r == 40 || r == 59 || r == 63 || r == 91 || r == 93 || r == 43 || r == 45 || r == 47 || r == 37 || r == 42 || r == 38 || r == 33 || r == 60 || r == 62
 
 //@ func (*lexer).atRightDelim
 //@   props C02 C03
